@@ -22,7 +22,10 @@ import json
 PROPERTY = "C17"
 RULE = ("stream cases = random selection under the subscription field (depth<=2: leaf/object/list fields, sync and async field "
         "resolvers, interface- and union-typed payloads whose implementations Dog/Cat declare the same fields with different argument "
-        "defaults, nested and in lists, the runtime type changing between events and inside one event) x stream driven by `async for` | "
+        "defaults, nested and in lists, the runtime type changing between events and inside one event) x operation VARIABLES (declared defaults not sent, explicit null, enum and input-object variables, variables in "
+        "@skip/@include of the event selection and in the subscription field's own argument; k-th result compared with the one-event "
+        "execution under the same variables) x lazy | eager subscription resolver (takes the head of the backlog when called; refusals "
+        "must leave the resolver uncalled and the source untouched, on every runtime class) x stream driven by `async for` | "
         "bare __anext__() pulls | __aiter__() calls interleaved mid-stream | aclose() where offered x event list of length 0..6 (per event: which paths raise ResolverError, which objects are null, list lengths; "
         "the root field itself may fail) x sync|async subscription resolver x iterator class|async generator source x "
         "per-event delays (loop spins before the gate opens) x inline|thread-offloaded blocking resolvers; refusal cases = every "
@@ -83,6 +86,46 @@ AOBJ = ("pal",)
 ALST = ("pals",)
 SPECIES = ("Dog", "Cat")
 DRIVES = ("async-for", "anext", "anext-aiter-mid", "aclose-mid")
+# operation VARIABLES (declared with defaults; the request sends a subset): name -> (type, default literal, default value, values a request may send)
+VARS = {
+    "n": ("Int", "5", 5, [6, 0]),                       # the subscription field's own argument: ev(n: $n)
+    "flag": ("Boolean", "true", True, [False, True]),   # vi: a @include(if: $flag)
+    "skip": ("Boolean", "false", False, [True, False]),  # vs: a @skip(if: $skip)
+    "e": ("Mode", "LOUD", "LOUD", ["QUIET", "LOUD"]),   # enum coerced to its internal value: vm: mode(m: $e)
+    "in": ("Opts", "{k: 2}", {"k": 2}, [{"k": 3, "d": 1}, {"k": 4}]),   # input object, its field d has a default: vo: opt(o: $in)
+    "nul": ("Int", None, "<absent>", [None, 4]),        # nullable, no default: omitted / explicit null / a value: va: argf(x: $nul)
+}
+MODE_VALUE = {"LOUD": 7, "QUIET": 3}
+
+
+def gen_vars(rng):
+    send = {}
+    for name, (_t, _lit, _dv, choices) in VARS.items():
+        if rng.random() < 0.4:
+            send[name] = rng.choice(choices)
+    return {"send": send}
+
+
+def effective_vars(case):
+    eff = {}
+    for name, (_t, _lit, dv, _c) in VARS.items():
+        eff[name] = case["vars"]["send"].get(name, dv)
+    return eff
+
+
+def var_fields(case, ev):
+    """[(key, value)] of the variable-driven leaves appended to the event selection, per the GraphQL coercion rules"""
+    eff = effective_vars(case)
+    out = [("vm", MODE_VALUE[eff["e"]]), ("vo", eff["in"]["k"] + eff["in"].get("d", 40))]
+    out.append(("va", 9 if eff["nul"] == "<absent>" else (-1 if eff["nul"] is None else eff["nul"])))
+    if not eff["skip"]:
+        out.append(("vs", ev["val"]))
+    if eff["flag"]:
+        out.append(("vi", ev["val"]))
+    return out
+
+
+VAR_SEL_TEXT = "vm: mode(m: $e) vo: opt(o: $in) va: argf(x: $nul) vs: a @skip(if: $skip) vi: a @include(if: $flag)"
 
 
 def animal_value(species, f):
@@ -231,6 +274,7 @@ def gen_case(rng):
         case = {"kind": "refusal", "refusal": r, "async_sub": rng.random() < 0.5,
                 "source": rng.choice(["iter", "agen"]), "threads": False, "sel": sel,
                 "events": [gen_event(rng, 0, sel, 0.0)], "delays": [0, 0]}
+        case["eager_head"] = rng.random() < 0.5
         if r == "mutation-op":
             case["shared_root"] = rng.choice([None, "all"])
         else:
@@ -251,6 +295,9 @@ def gen_case(rng):
     if rng.random() < 0.25:
         case["shared_root"] = rng.choice(["all", "query"])
     case["drive"] = rng.choice(DRIVES)
+    if "root" not in case and rng.random() < 0.3:
+        case["vars"] = gen_vars(rng)
+    case["eager_head"] = rng.random() < 0.3
     return case
 
 
@@ -275,10 +322,11 @@ def render_sel(sel):
 def render_root(case):
     """-> (root selection text, fragment definitions text)"""
     sel = case["sel"]
-    arg = "$v" if case["refusal"] == "vars" else "5"
+    arg = "$v" if case["refusal"] == "vars" else ("$n" if case.get("vars") else "5")
     half = max(1, len(sel) // 2)
+    extra = (" " + VAR_SEL_TEXT) if case.get("vars") else ""
     leaf_text = {
-        "R": "root: ev(n: %s) { %s }" % (arg, render_sel(sel)),
+        "R": "root: ev(n: %s) { %s%s }" % (arg, render_sel(sel), extra),
         "Ra": "root: ev(n: %s) { %s }" % (arg, render_sel(sel[:half])),
         "Rb": "root: ev(n: %s) { %s }" % (arg, render_sel(sel[half:]) or "zz: a"),
         "Rs": "root: ev(n: %s) @skip(if: true) { %s }" % (arg, render_sel(sel)),
@@ -319,6 +367,8 @@ def documents(case):
     elif r == "mutation-op":
         kw = "mutation    "
     decl = "($v: Int!)" if r == "vars" else ""
+    if case.get("vars"):
+        decl = "(%s)" % ", ".join("$%s: %s%s" % (name, t, "" if lit is None else " = " + lit) for name, (t, lit, _d, _c) in VARS.items())
     tail = (" " + frags) if frags else ""
     if r == "opsel-ambiguous":
         tail += " subscription P { root: ev(n: 1) { zz: a } }"
@@ -334,6 +384,8 @@ def request_extras(case):
     """(operation_name, variables) of the subscribe call"""
     r = case["refusal"]
     opname = {"opsel-unknown": "Missing", "named-query-op": "Q"}.get(r)
+    if case.get("vars"):
+        return opname, copy.deepcopy(case["vars"]["send"])
     return opname, ({} if r == "vars" else None)
 
 
@@ -342,9 +394,12 @@ class SubCtx:
     def __init__(self):
         self.progress = 0      # bumped by every field resolver call
         self.loop = None
-        self.sub_calls = 0
+        self.sub_calls = 0          # invocations of the subscription resolver (sync or async flavour), counted at the call
         self.sub_args = None
         self.source = None
+        self.src = None
+        self.sources_created = 0    # the resolver got as far as creating / handing out the event source
+        self.eager_head = False     # the resolver takes the head of the backlog when it is called
 
 
 class Source:
@@ -356,6 +411,12 @@ class Source:
         self.i = 0
         self.pulls = 0
         self.gates = []
+        self.heads_taken = 0
+
+    def take_head(self):
+        """called by an eager subscription resolver: reserves the head of the backlog (delivered by the first pull)"""
+        if self.i < len(self.events):
+            self.heads_taken += 1
 
     def __aiter__(self):
         return self
@@ -480,9 +541,17 @@ def schemas(mode):
                 return None
             return {"__typename__": root["species"][ps], "ev": root}
 
+        from py_gql.schema import EnumType, EnumValue, InputField, InputObjectType
+        Mode = EnumType("Mode", [EnumValue("LOUD", value=7), EnumValue("QUIET", value=3)])
+        Opts = InputObjectType("Opts", [InputField("k", Int), InputField("d", Int, default_value=40)])
+
         def evt_fields():
             t = ref[0]
-            fs = [Field("pet", Animal, resolver=pet), Field("petu", Pet, resolver=pet)]
+            fs = [Field("pet", Animal, resolver=pet), Field("petu", Pet, resolver=pet),
+                  Field("mode", Int, args=[Argument("m", Mode)], resolver=lambda root, ctx, info, m=None: m),
+                  Field("opt", Int, args=[Argument("o", Opts)], resolver=lambda root, ctx, info, o=None: o["k"] + o["d"]),
+                  Field("argf", Int, args=[Argument("x", Int, default_value=9)],
+                        resolver=lambda root, ctx, info, x=None: -1 if x is None else x)]
             for name in LEAF:
                 fs.append(Field(name, Int, resolver=mk(name, mode == "async" and name.endswith("d"))))
             for name in OBJ:
@@ -497,19 +566,22 @@ def schemas(mode):
                 raise ResolverError("fail@%d root" % event["id"])
             return event
 
-        def sub_sync(root, ctx, info, **args):
-            ctx.sub_calls += 1
+        def open_source(ctx, args):
             ctx.sub_args = args
+            ctx.sources_created += 1
+            if ctx.eager_head:
+                ctx.src.take_head()
             return ctx.source
 
         async def sub_async(root, ctx, info, **args):
-            ctx.sub_calls += 1
-            ctx.sub_args = args
             await asyncio.sleep(0)
-            return ctx.source
+            return open_source(ctx, args)
 
         def sub(root, ctx, info, **args):
-            return (sub_async if ctx.async_sub else sub_sync)(root, ctx, info, **args)
+            ctx.sub_calls += 1
+            if ctx.async_sub:
+                return sub_async(root, ctx, info, **args)
+            return open_source(ctx, args)
         S = ObjectType("Subscription", [
             Field("ev", Evt, args=[Argument("n", Int)], resolver=root_resolver, subscription_resolver=sub),
             Field("ev2", Evt, resolver=root_resolver, subscription_resolver=sub),
@@ -595,6 +667,8 @@ def run_real(case, scale=1):
     ctx.async_sub = case["async_sub"]
     src = Source(case["events"], loop)
     ctx.source = agen_of(src) if case["source"] == "agen" else src
+    ctx.src = src
+    ctx.eager_head = bool(case.get("eager_head"))
     pool_rt = None
     try:
         r = case["refusal"]
@@ -706,6 +780,8 @@ def run_real(case, scale=1):
             pool_rt._inner.shutdown(wait=False)
     out["pulls"] = src.pulls
     out["sub_calls"] = ctx.sub_calls
+    out["sources_created"] = ctx.sources_created
+    out["heads_taken"] = src.heads_taken
     out["sub_args"] = ctx.sub_args
     return out
 
@@ -717,7 +793,7 @@ def expected_results(case):
     _, qtext = documents(case)
     out = []
     for ev in case["events"]:
-        res = graphql_blocking(twin, qtext, root=copy.deepcopy(ev))
+        res = graphql_blocking(twin, qtext, root=copy.deepcopy(ev), variables=request_extras(case)[1])
         out.append(res.response())
     return out
 
@@ -739,8 +815,13 @@ def oracle(case, real):
                         "%s was accepted%s" % (r, " (subscription root type shared with %s root)" % case["shared_root"] if case.get("shared_root") else "")))
         elif real["refused"] != EXPECTED_EXC[r]:
             bad.append(("refusal-class:%s:%s" % (r, real["refused"]), "%s refused with %s, documented %s" % (r, real["refused"], EXPECTED_EXC[r])))
-        if real["pulls"] != 0:
-            bad.append(("refusal-consumed:%s" % r, "%s: %d events pulled from the source before the refusal" % (r, real["pulls"])))
+        if real["pulls"] != 0 or real.get("heads_taken"):
+            bad.append(("refusal-consumed:%s" % r, "%s: %d events pulled / %d taken from the source before the refusal"
+                        % (r, real["pulls"], real.get("heads_taken", 0))))
+        if real["sub_calls"] != 0:
+            bad.append(("refusal-side-effect:resolver-called:%s" % r,
+                        "%s: the subscription resolver was called %d times (%d sources created) although the request is refused"
+                        % (r, real["sub_calls"], real.get("sources_created", 0))))
         return bad
     if real["refused"] is not None:
         return [("stream-refused:%s%s" % (real["refused"], spelling_class(case)), "a valid subscription was refused with %s" % real["refused"])]
@@ -761,7 +842,8 @@ def oracle(case, real):
         return bad
     if real["pulls"] != n + 1:
         bad.append(("source-pulls:%s" % ("more" if real["pulls"] > n + 1 else "fewer"), "source pulled %d times for %d events" % (real["pulls"], n)))
-    if real["sub_calls"] != 1 or real.get("sub_args") != {"n": 5}:
+    want_n = effective_vars(case)["n"] if case.get("vars") else 5
+    if real["sub_calls"] != 1 or real.get("sub_args") != {"n": want_n}:
         bad.append(("subscription-resolver-call", "subscription resolver called %d times with %r" % (real["sub_calls"], real.get("sub_args"))))
     want = expected_results(case)
     unordered = bool(case["threads"]) or has_async_field(case["sel"])
@@ -834,7 +916,10 @@ def event_tree(case, ev):
         return out
     if "root" in ev["fail"]:
         return [{"k": "root", "o": "raise"}]
-    return [{"k": "root", "o": "ret", "c": {"t": "obj", "fs": nodes(case["sel"] or [{"k": "zz", "f": "a", "sel": []}], ("root",))}}]
+    fs = nodes(case["sel"] or [{"k": "zz", "f": "a", "sel": []}], ("root",))
+    if case.get("vars"):
+        fs += [{"k": k, "o": "ret", "c": {"t": "leaf", "v": v}} for k, v in var_fields(case, ev)]
+    return [{"k": "root", "o": "ret", "c": {"t": "obj", "fs": fs}}]
 
 
 def model_root(root):
@@ -879,6 +964,8 @@ def compare(case, real, ans):
     if (real["refused"] is None) != (mref is None) or (mref is not None and mref != real["refused"]):
         return ("corr:refusal:%s" % (case["refusal"] or "stream"), "refusal differs: real %r, model %r" % (real["refused"], mref))
     if mref is not None:
+        if bool(real["sub_calls"]) != bool(ans.get("subResolverCalled")):
+            return ("corr:refusal-resolver-called", "subscription resolver called: real %d, model %r" % (real["sub_calls"], ans.get("subResolverCalled")))
         if ans.get("pulls", 0) != real["pulls"]:
             return ("corr:refusal-pulls", "source pulls differ: real %d, model %d" % (real["pulls"], ans.get("pulls", 0)))
         return None
@@ -970,12 +1057,12 @@ def check_cases(ctx, cases):
                 return None
             seen = ctx.extra.setdefault("_shrunk", {})
             cls = sig.split(":")[0]
-            if cls == "hang" or seen.get(cls, 0) >= 2:      # shrink the first cases of a failure class only (time)
-                ctx.fail(seen.get(sig, sig), what, {"case": case})
+            if cls == "hang" or seen.get(("n", cls), 0) >= 2:      # shrink the first cases of a failure class only (time)
+                ctx.fail(seen.get(("sig", sig), sig), what, {"case": case})
                 continue
-            seen[cls] = seen.get(cls, 0) + 1
+            seen[("n", cls)] = seen.get(("n", cls), 0) + 1
             small, ssig = shrink(case, failing)
-            seen[sig] = ssig or sig
+            seen[("sig", sig)] = ssig or sig
             ctx.fail(ssig or sig, what, {"case": small})
     if not ctx.model_ok:
         return
@@ -1036,6 +1123,23 @@ def exhaustive_cases():
                 out.append({"kind": "stream", "refusal": None, "async_sub": a, "source": "agen" if a else "iter", "threads": False,
                             "sel": copy.deepcopy(sel), "delays": [0] * (nev + 1), "drive": drive,
                             "events": [{"id": i, "val": i, "fail": ["root/x"] if i == 1 else [], "null": [], "len": {}} for i in range(nev)]})
+    # operations with VARIABLES: nothing sent (all declared defaults), each variable alone (every choice), everything sent
+    sends = [{}]
+    for name, (_t, _l, _d, choices) in VARS.items():
+        sends += [{name: c} for c in choices]
+    sends.append({name: c[0] for name, (_t, _l, _d, c) in VARS.items()})
+    for n, send in enumerate(sends):
+        out.append({"kind": "stream", "refusal": None, "async_sub": bool(n % 2), "source": "iter" if n % 2 else "agen", "threads": False,
+                    "sel": copy.deepcopy(sel), "delays": [0, 1, 0, 0], "drive": DRIVES[n % len(DRIVES)], "vars": {"send": send},
+                    "eager_head": n % 3 == 0,
+                    "events": [{"id": i, "val": 10 + i, "fail": ["root/x"] if i == 1 else [], "null": [], "len": {}} for i in range(3)]})
+    # every refusal with an EAGER subscription resolver (takes the head of the backlog when called): nothing may be called / taken
+    for r in REFUSALS:
+        if r in ("multi-expanded", "zero-fields"):
+            continue
+        for a in (False, True):
+            out.append({"kind": "refusal", "refusal": r, "async_sub": a, "source": "iter", "threads": False, "sel": copy.deepcopy(sel),
+                        "events": [{"id": 0, "val": 1, "fail": [], "null": [], "len": {}}], "delays": [0, 0], "eager_head": True})
     ev0 = {"id": 0, "val": 1, "fail": [], "null": [], "len": {}}
     ev1 = {"id": 1, "val": 2, "fail": ["root/x"], "null": [], "len": {}}
 
